@@ -134,10 +134,25 @@ fn gen_pattern(r: &mut Rng, hosts: &[&str]) -> String {
 
 fn location(r: &mut Rng, hosts: &[&str]) -> String {
     let h = *r.pick(hosts);
-    match r.below(8) {
+    match r.below(14) {
         0 => format!("/{}", r.ident(1, 6)),
         1 => r.ident(1, 6),
         2 => format!("//{h}/{}", r.ident(1, 4)),
+        // spellings the URL parser resolves to a new authority without a literal "//"
+        3 => format!("/\\{h}/{}", r.ident(1, 4)),
+        4 => format!("\\\\{h}/{}", r.ident(1, 4)),
+        5 => format!("\\/{h}/{}", r.ident(1, 4)),
+        6 => {
+            let sch = *r.pick(&["http", "https"]);
+            match r.below(4) {
+                0 => format!("{sch}:\\\\{h}/{}", r.ident(1, 4)),
+                1 => format!("{sch}:/\\{h}/{}", r.ident(1, 4)),
+                2 => format!("{sch}:{h}/{}", r.ident(1, 4)),
+                _ => format!("{sch}:/{h}/{}", r.ident(1, 4)),
+            }
+        }
+        7 => format!("///{h}/{}", r.ident(1, 4)),
+        8 => format!(" \t//{h}/{}", r.ident(1, 4)),
         _ => net::gen_url(r, h),
     }
 }
@@ -294,7 +309,7 @@ impl Property for C27 {
         Meta {
             id: "C27",
             level: "exploration",
-            rule: "one evaluation = one request (sync or async, GET with seeded headers incl. Authorization / Cookie / Proxy-Authorization / Host) through the REAL default resolver stack (core.allow_redirects on or off, no allow-list) with the simulated wire underneath, answered by a scripted redirect chain of 0-14 hops (301/302/303/307/308) whose Locations are drawn from public hosts and from the address classes of the statement in many spellings (localhost variants, dotted / integer / hex / octal / short IPv4, bracketed IPv6, IPv4-mapped IPv6, trailing dots, userinfo tricks). Oracle on the wire log: no request with hop index >= 1 targets a host the simulator's own classifier (built on the url crate's host parser) puts in a listed class; at most 11 requests per call; with redirects disabled exactly one request and Err(RedirectDisallowed) on a 3xx with Location; no hop >= 1 carries one of the four headers and every other original header is still present. IPv4-compatible / NAT64 / other special ranges not listed by the statement are only counted. Distinct = (chain, headers, mode)",
+            rule: "one evaluation = one request (sync or async, GET with seeded headers incl. Authorization / Cookie / Proxy-Authorization / Host) through the REAL default resolver stack (core.allow_redirects on or off, no allow-list) with the simulated wire underneath, answered by a scripted redirect chain of 0-14 hops (301/302/303/307/308) whose Locations are drawn from public hosts and from the address classes of the statement in many spellings (localhost variants, dotted / integer / hex / octal / short IPv4, bracketed IPv6, IPv4-mapped IPv6, trailing dots, userinfo tricks) and written as absolute URLs, //authority, path-relative references, and the spellings the URL parser resolves to a new authority without a literal // (/\\host, \\\\host, \\/host, http:\\\\host, http:/\\host, other-scheme:host, ///host, leading blank or tab); one first request in ten goes to an internal host itself. Oracle on the wire log: no request with hop index >= 1 targets a host the simulator's own classifier (built on the url crate's host parser) puts in a listed class; at most 11 requests per call; with redirects disabled exactly one request and Err(RedirectDisallowed) on a 3xx with Location; no hop >= 1 carries one of the four headers and every other original header is still present. IPv4-compatible / NAT64 / other special ranges not listed by the statement are only counted. Distinct = (chain, headers, mode)",
             assumptions: &["a Location the url crate cannot parse demands nothing", "DNS names that resolve to internal addresses are out of scope (string-level policy)"],
             real: &["RedirectResolver incl. host_is_non_global, build_redirected_request, MAX_REDIRECTS"],
             stubbed: &["HTTP client below Sync/AsyncGenericResolver (SimNet)"],
@@ -323,7 +338,9 @@ impl Property for C27 {
             if !rc.want_sub(sub) {
                 continue;
             }
-            let fh: &str = *r.pick(&net::PUBLIC_HOSTS[..]);
+            // now and then the first request itself goes to an internal host (allowed); what it
+            // redirects to is a redirect target like any other
+            let fh: &str = if r.chance(1, 10) { *r.pick(&net::INTERNAL_HOSTS[..]) } else { *r.pick(&net::PUBLIC_HOSTS[..]) };
             let first = net::gen_url(&mut r, fh);
             let hops = r.usize(0, 14);
             // mostly public chains with one internal hop somewhere, so that chains get far
